@@ -202,6 +202,11 @@ func (m *PlaintextMetaData) ReadFrom(r io.Reader) (int64, error) {
 
 func (m PlaintextMetaData) MarshalJSON() (p []byte, err error) {
 
+	// Rows and Cols are stored in one two's-complement byte each (they can be negative).
+	if r, c := m.LogDimensions.Rows, m.LogDimensions.Cols; r < -128 || r > 127 || c < -128 || c > 127 {
+		return nil, fmt.Errorf("cannot MarshalJSON: LogDimensions %v does not fit in a signed byte", m.LogDimensions)
+	}
+
 	var IsBatched uint8
 	if m.IsBatched {
 		IsBatched = 1
@@ -221,7 +226,7 @@ func (m PlaintextMetaData) MarshalJSON() (p []byte, err error) {
 		Scale:         m.Scale,
 		IsBatched:     fmt.Sprintf("0x%02x", IsBatched),
 		IsBitReversed: fmt.Sprintf("0x%02x", IsBitReversed),
-		/* #nosec G115 -- Rows and Cols cannot be negative if valid */
+		/* #nosec G115 -- range checked above: two's-complement byte of a value in [-128, 127] */
 		LogDimensions: [2]string{fmt.Sprintf("0x%02x", uint8(m.LogDimensions.Rows)), fmt.Sprintf("0x%02x", uint8(m.LogDimensions.Cols))},
 	}
 
